@@ -455,8 +455,17 @@ def rule_R6(ck):
                             names.add(m.value.id)
                             changed = True
     ck.instance("tainted-names", {"names derived from -W / --report-format": sorted(names)}, fn=where)
-    if "report_handler" not in names:
-        ck.unknown("main_cli: the handler object is not derived from the report options any more")
+    local_classes = {c.name for c in repo.module("_cli").tree.body if isinstance(c, ast.ClassDef)}
+    into_objects = any(isinstance(c, ast.Call) and isinstance(c.func, ast.Name) and c.func.id in local_classes
+                       and ({m.id for a in list(c.args) + [k.value for k in c.keywords] for m in ast.walk(a) if isinstance(m, ast.Name)} & names
+                            or any(s_ in norm_text(c) for s_ in seeds)) for c in guards.calls_in(main))
+    if "report_handler" not in names or into_objects:
+        # not the flat shape this flow rule reads (the options travel inside an object of the module): that the report options change
+        # neither the bytes, the files nor the exit status is decided by executing main_cli under every option (rule CLI, noninterference)
+        ck.instance("option-flow-skipped", {"reason": "the report options are carried by an object of the module; decided by the executed CLI model"}, fn=where)
+        for k_ in range(4):
+            ck.instance(("option-flow-skipped", k_), None, fn=where)
+        return
     # sinks: Compiler(...), compile_and_link_files, emit_files, file_formats[...](...), open_device, generate_listing, sys.exit
     for c in guards.calls_in(main):
         f = norm_text(c.func)
@@ -483,31 +492,37 @@ def rule_R8(ck):
     """diagnostics and the image never share a stream"""
     repo = ck.repo
     n = 0
-    # the handlers' __call__ methods and whatever helpers of the reports module print on their behalf
-    for q, fn in repo.all_functions():
-        if q.split("::")[0] != "reports" or isinstance(fn, ast.Lambda) or "<locals>" in q:
+    # both handlers are executed on a two-span report in a three-line file; every character they emit must go to the error stream
+    # (whatever they emit it with: print(file=...), a writer object, stream.write)
+    I = interp(repo)
+    I.summaries = {}
+    for h in ("BareHandler", "GraphicalHandler"):
+        def thunk(h=h):
+            C = I.module_get("context", "Context")
+
+            def at(pos):
+                c = I.instantiate(C, ["dir/a.mac", "x\n\tab cd\nlast\n"], {})
+                c.fields["pos"] = pos
+                return c
+            hd = I.instantiate(I.module_get("reports", h), [], {})
+            n0 = len(I.effects)
+            I.call_method(hd, "__call__", [I.module_get("reports", "warning"), "some-id", (at(5), at(7), "first\nmessage"), (at(10), at(12), "second")])
+            return [getattr(e[2], "dotted", None) if e[2] is not None else "sys.stdout" for e in I.effects[n0:] if e[0] == "print"]
+        ps = I.explore(thunk)
+        q = f"reports::{h}.__call__"
+        if len(ps) != 1 or ps[0].kind != "return":
+            ck.incomplete(q, f"{h} on a two-span warning", ps)
             continue
-        h = q.split("::")[1].split(".")[0]
-        for c in walk_local(fn):
-            if isinstance(c, ast.Call) and isinstance(c.func, ast.Name) and c.func.id == "print":
-                n += 1
-                file_kw = [k for k in c.keywords if k.arg == "file"]
-                to_err = file_kw and norm_text(file_kw[0].value) == "sys.stderr"
-                ck.instance(("print", q, c.lineno), None, fn=q)
-                if not to_err:
-                    owners = [o.split("::")[1].split(".")[0] for o in ck._owners(public_qual(q))]
-                    h = "BareHandler" if "BareHandler" in owners + [h] else h
-                    ck.violation(f"reports::{h}.__call__" if h in ("BareHandler", "GraphicalHandler", "FilterHandler") else c,
-                                 f"{h} prints diagnostics to standard output, which is also where '-o -' writes the image: with --report-format=bare a warning's text is prepended to the bytes a consumer of the output receives, "
-                                 "with 'graphical' it is not", construct=f"{h} prints to stdout")
-    # calls of a local wrapper that itself prints (to stderr: judged above, where it prints) count as print sites
-    wrappers = {fn.name for q, fn in repo.all_functions() if q.split("::")[0] == "reports" and isinstance(fn, ast.FunctionDef) and fn.args.vararg is not None
-                and any(isinstance(c, ast.Call) and isinstance(c.func, ast.Name) and c.func.id == "print" for c in walk_local(fn))}
-    for q, fn in repo.all_functions():
-        if q.split("::")[0] == "reports" and not isinstance(fn, ast.Lambda):
-            n += sum(1 for c in walk_local(fn) if isinstance(c, ast.Call) and isinstance(c.func, ast.Name) and c.func.id in wrappers)
-    if n < 10:
-        ck.unknown(f"only {n} print calls found in the report handlers (about 15 confirmed by hand)")
+        streams = ps[0].value
+        n += len(streams)
+        ck.instance(("streams", h), {"handler": h, "pieces of output": len(streams), "streams": sorted(set(str(x) for x in streams))}, fn=q)
+        if not streams:
+            ck.violation(q, f"{h} prints nothing for a warning with two spans", construct=f"{h} prints nothing")
+        elif any(x != "sys.stderr" for x in streams):
+            ck.violation(q, f"{h} prints diagnostics to standard output, which is also where '-o -' writes the image: with --report-format=bare a warning's text is prepended to the bytes a consumer of the output receives, "
+                            "with 'graphical' it is not", construct=f"{h} prints to stdout")
+    if n < 6:
+        ck.unknown(f"only {n} pieces of output seen from the report handlers")
     # other stdout writers reachable from main_cli: print(...) without file= outside devices
     for q, fn in repo.all_functions():
         if q.split("::")[0] in ("devices", "reports"):
